@@ -130,7 +130,7 @@ fn list_coq(v: Vec<String>) -> String { format!("[{}]", v.join("; ")) }
 
 pub fn generate(opts: &Opts, sink: &mut CaseSink) {
     let mut rng = Rng::new(opts.seed);
-    let n = if opts.thorough { 4000 } else { 500 };
+    let n = (if opts.thorough { 4000 } else { 500 }) / opts.scale;
     let combos = [("AHash", "JInner"), ("AHash", "JLeft"), ("AHash", "JOuter"), ("ASortMerge", "JInner"), ("ASortMerge", "JLeft"),
                   ("ASortMerge", "JOuter"), ("ABroadcastHash", "JInner"), ("ABroadcastHash", "JLeft"), ("AKeyedInner", "JInner"), ("AKeyedOuter", "JOuter")];
     for i in 0..n {
@@ -156,7 +156,7 @@ pub fn generate(opts: &Opts, sink: &mut CaseSink) {
                                "deliveries": format!("{:?}", dels), "impl_output": format!("{:?}", out)}), nres >= 2 && dels.len() >= 4);
     }
     // keyed interval join over timestamped (key, value) streams
-    for _ in 0..(if opts.thorough { 1500 } else { 200 }) {
+    for _ in 0..((if opts.thorough { 1500 } else { 200 }) / opts.scale) {
         let (nl, nr) = (rng.range(1, 2) as usize, rng.range(1, 2) as usize);
         let (lb, ub) = (rng.range(0, 4), rng.range(0, 4));
         let mk = |rng: &mut Rng, base: i64| -> Vec<Vec<E<(i64, i64)>>> {
